@@ -52,6 +52,7 @@ TRACKING = [("utm_source", "x"), ("utm_medium", ""), ("utm_campaign", None), ("u
             ("m", "1"), ("m", "0"), ("s", "09"), ("s", "2"), ("source", "twitter"), ("sns", "tw"), ("_ss", "r"), ("UTM_Source", "X"),
             ("ref", "twitter"), ("ref", "bookmark"), ("ref", "bookmarks"), ("ref", "distributor_share"), ("ref", "fb"), ("ref", "fb_i"), ("ref", "m_notif"), ("ref", "nf"), ("ref", "notif"),
             ("ref", "shortener"), ("ref", "ts"), ("ref", "tw"), ("ref", "tw_i"), ("ref", "twhr"), ("ref", "twhs"), ("ref", "viral"), ("ref", "feed"), ("ref", "twtrec"),
+            ("fbclid", "IwAR0abc="), ("mkt_tok", "abc=="), ("gclid", "a=b"), ("utm_source", "=x"),
             ("spref", "fb"), ("spref", "ts"), ("spref", "tw"), ("spref", "tw_i"), ("spref", "twitter")]
 INDEXES = ["index.html", "index.php", "index", "default.aspx", "default.htm", "index.xhtml"]
 
@@ -370,6 +371,22 @@ def run(ctx):
                 redirect_law(u)
             for u in ("http://example.com/x?si=abc&t=42&ab_channel=z&_rdr=1&cbrd=1", "http://example.org/?t=42", "https://www.youtube.com/results?search_query=cats&t=42&si=abc", "https://www.facebook.com/x/y?_rdr=1&si=abc"):
                 norm(fn, u, {})  # per-domain items on and off their domain: remembered for the history-independence pass
+            # per-domain items composed with the host spellings that must not matter (case, default port, userinfo, marker)
+            for u, items in (("https://www.youtube.com/results?search_query=cats", "t=42&si=abc&ab_channel=x&cbrd=1&ucbcb=1"), ("https://www.facebook.com/help/contact/123?a=1", "_rdr=1&_rdc=2"),
+                             ("http://youtube.com/feed/trending?bp=6", "si=x"), ("http://facebook.com/legal/terms?z=1", "_rdr")):
+                sp = u.split("/", 3)
+                for hname, hv in (("host-case", sp[2].upper()), ("default-port", sp[2] + (":443" if u.startswith("https") else ":80")), ("userinfo", "me:pw@" + sp[2]),
+                                  ("host-case", sp[2].title() + (":443" if u.startswith("https") else ":80")), ("subdomain", "m." + sp[2].replace("www.", ""))):
+                    uv = sp[0] + "//" + hv + "/" + sp[3] + "&" + items
+                    check_chain(ctx, fn, u, [(hname + "+per-domain-item", uv)], OPTSETS)
+                    check_chain(ctx, fn, u + "&" + items, [(hname, sp[0] + "//" + hv + "/" + sp[3])], OPTSETS)
+                    ctx.count("per-domain-item-with-host-spelling")
+            # one component holding an escaped invisible character and a non-ASCII letter written raw / escaped
+            for inv in ("%C2%A0", "%C2%85", "%E2%80%A8", "%E3%80%80", "%E2%80%8A", "%7F", "%00"):
+                for a, b in (("http://example.com/café/a%sb" % inv, "http://example.com/caf%%C3%%A9/a%sb" % inv), ("http://example.com/x?k=é%s&z=1" % inv, "http://example.com/x?k=%%C3%%A9%s&z=1" % inv),
+                             ("http://example.com/x?é%s=1" % inv, "http://example.com/x?%%c3%%a9%s=1" % inv), ("http://example.com/%sé" % inv, "http://example.com/%s%%C3%%A9" % inv)):
+                    check_chain(ctx, fn, a, [("escape", b)], OPTSETS)
+                    ctx.count("escape-next-to-escaped-invisible")
             for u in PLATFORM_BASES:
                 pv = platform_variants(u, rng)
                 for name, uv in pv:
